@@ -55,7 +55,7 @@ ASSUMPTIONS = ["the window between useSharedPackage/installSharedPackage returni
                "unused and the combination with --all-unused are outside the property (counted as info_*)",
                "a link that dangled and resolves again because the build-id was re-installed is not a user "
                "(info_stale_link_revived)"]
-TIME_BUDGET = {"quick": 215, "thorough": 1500}
+TIME_BUDGET = {"quick": 190, "thorough": 1500}
 BATCH = 40
 
 CLOCK_BASE = 1_500_000_000
@@ -632,6 +632,7 @@ class Monitor:
         self.stats = collections.Counter()
         self.norepo_at_enter = {}
         self.bad_read = {}
+        self.api_inc = {}            # op index -> incarnation of the package in which the share API registered the workspace
         self.use_lock_evno = {}      # prep op index -> event number at which its useSharedPackage locked pkg.json
         self.api_installed = {}      # op index -> what installSharedPackage returned (known before the op is done)
         self.paused = {}             # conc modes: wid -> (point kind, info) of the workers that are paused right now
@@ -751,6 +752,9 @@ class Monitor:
                 pass
         if info["ex"] and os.path.basename(info["path"]) == "pkg.json" and (self.cur.get(wid) or {}).get("op", [""])[0] == "prep":
             self.use_lock_evno[self.cur[wid]["i"]] = self.evno
+            pp = self.pkg_of(os.path.dirname(info["path"]))
+            if pp is not None:
+                self.api_inc[self.cur[wid]["i"]] = self.inc[pp.hex]
         if os.path.basename(info["path"]) == "repo.json" and wid in self.gcs and self.gcs[wid]["snap"] is None:
             self.gcs[wid]["snap"] = self.snap()
             self.gcs[wid]["evno"] = self.evno
@@ -819,7 +823,10 @@ class Monitor:
     def ev_slot_dropped(self, wid, info): self._dropped(info["path"])
 
     def ev_install_returned(self, wid, info):
-        self.api_installed[self.cur.get(wid, {}).get("i")] = info["installed"]
+        i = self.cur.get(wid, {}).get("i")
+        self.api_installed[i] = info["installed"]
+        if info["installed"] and wid in self.commit_inc:
+            self.api_inc[i] = self.commit_inc[wid]
 
     def ev_warn(self, wid, info):
         self.labels.add("warn:" + info["tag"])
@@ -887,6 +894,11 @@ class Monitor:
                     li = v["linkinfo"].get(W) or {}
                     if li.get("inc") != v["inc"] or not li.get("target_exists", True):
                         self.labels.add("info_stale_link_revived")
+                        continue
+                    if self.api_inc.get(li.get("op"), li.get("inc")) != li.get("inc"):
+                        # the package was collected and installed again by somebody else between the share API call of
+                        # op li["op"] and the creation of its link: the (not "in use") window, with a later symptom
+                        self.labels.add("info_window_reincarnated")
                         continue
                     who = "%s -> %s" % (self.short(W), name(v["bid"]))
                     if W in e.get("users", []):
@@ -1679,6 +1691,161 @@ def check(ctx, case):
         ctx.label("unconfirmed-in-forked-processes")
         ctx.inconclusive += 1
 
+# =========================================================================================
+# L2: two real Bob projects with a shared package, built concurrently as real processes
+def e2e_project(base, name, npkg, store, quota, rv):
+    d = os.path.join(base, name)
+    os.makedirs(os.path.join(d, "recipes"))
+    with open(os.path.join(d, "config.yaml"), "w") as f:
+        f.write('bobMinimumVersion: "0.25"\n')
+    with open(os.path.join(d, "default.yaml"), "w") as f:
+        f.write("share:\n    path: %s\n    quota: %s\n" % (json.dumps(store), "null" if quota is None else json.dumps(str(quota))))
+    for k in range(npkg):
+        # identical recipes in both projects => same Build-Id.  The package step announces itself and waits (bash
+        # builtins only, at most ~10 s) until a second builder of the same package has arrived, so that both projects
+        # are between "no shared package available" and "install" at the same time.
+        with open(os.path.join(d, "recipes", "pkg%d.yaml" % k), "w") as f:
+            f.write("root: True\nshared: True\nbuildScript: |\n    true\npackageScript: |\n"
+                    "    printf '%%s' 'content-%d' > result.txt\n"
+                    "    : > %s/arrive%d.$$\n"
+                    "    exec 9<>%s/fifo\n"
+                    "    for ((i=0;i<100;i++)); do set -- %s/arrive%d.*; if [ $# -ge 2 ]; then break; fi; read -t 0.1 -u 9 || :; done\n"
+                    % (k, rv, k, rv, rv, k))
+    return d
+
+def e2e_store_check(ctx, case, store, where):
+    """invariants (1) and (4) on a store written by real Bob processes"""
+    from bob.utils import hashDirectory
+    vis = {}
+    if os.path.isdir(store):
+        for a in os.listdir(store):
+            pa = os.path.join(store, a)
+            if len(a) == 2 and os.path.isdir(pa):
+                for b in os.listdir(pa):
+                    for c in os.listdir(os.path.join(pa, b)):
+                        if c.endswith("-3"):
+                            vis[a + b + c[:-2]] = os.path.join(pa, b, c)
+    sizes = {}
+    for hexid, d in vis.items():
+        for n in ("workspace", "audit.json.gz", "pkg.json"):
+            if not os.path.exists(os.path.join(d, n)):
+                ctx.fail("visible-package-incomplete", "%s: %s lacks %s" % (where, d, n), case)
+                return vis
+        with open(os.path.join(d, "pkg.json")) as f:
+            meta = json.load(f)
+        h = hashDirectory(os.path.join(d, "workspace")).hex()
+        if h != meta.get("hash"):
+            ctx.fail("stored-content-differs", "%s: %s records hash %s, content hashes to %s" % (where, d, meta.get("hash"), h), case)
+        c = treecanon.canon(os.path.join(d, "workspace"))
+        names = [x[0] for x in c]
+        if names != [b"result.txt"]:
+            ctx.fail("stored-content-differs", "%s: %s contains %r" % (where, d, names), case)
+        sizes[hexid] = meta.get("size")
+    rp = os.path.join(store, "repo.json")
+    listed = {}
+    if os.path.exists(rp):
+        with open(rp) as f:
+            listed = json.load(f).get("pkgs", {})
+    if listed != sizes:
+        ctx.fail("repo-json-lists-wrong-packages", "%s: repo.json %r, visible packages with their pkg.json sizes %r" % (where, listed, sizes), case)
+    return vis
+
+def run_e2e(ctx, case):
+    from vlib import bobproc
+    base = ctx.tmpdir()            # real processes: the ordinary scratch disk
+    try:
+        store = os.path.join(base, "store")
+        rv = os.path.join(base, "rv")
+        os.makedirs(rv)
+        os.mkfifo(os.path.join(rv, "fifo"))
+        if case["start"] == "empty":
+            os.makedirs(store)
+        npkg = case["npkg"]
+        projs = [e2e_project(base, "p%d" % i, npkg, store, case["quota"], rv) for i in range(2)]
+        names = ["pkg%d" % k for k in range(npkg)]
+        labels = {"mode:e2e", "e2e-clean:" + (" ".join(case["clean"]) or "plain")}
+        res = {}
+        def build(i):
+            res[i] = bobproc.script(projs[i], ["dev"] + names)
+        ts = [threading.Thread(target=build, args=(i,)) for i in range(2)]
+        for t in ts: t.start()
+        for t in ts: t.join()
+        def failed(what, r):
+            meta = "JSONDecodeError" in r.err or "Corrupt meta info" in r.err or "Corrupt meta info" in r.out
+            ctx.fail("e2e-metadata-race" if meta else "e2e-command-failed",
+                     "%s exited with %d: %s %s" % (what, r.rc, r.out[-300:], r.err[-600:]), case)
+        for i in range(2):
+            if res[i].rc != 0:
+                failed("concurrent `bob dev %s` in project %d" % (" ".join(names), i), res[i])
+                return
+        lost = sum(r.out.count("package already installed") for r in res.values())
+        if lost:
+            labels.add("e2e-install-race-lost")
+        vis = e2e_store_check(ctx, case, store, "after the concurrent builds")
+        def links():
+            out = {}
+            for i in range(2):
+                for n in names:
+                    w = os.path.join(projs[i], "dev", "dist", n, "1", "workspace")
+                    if os.path.islink(w) and os.path.isdir(w):
+                        out[w] = os.path.dirname(os.readlink(w))
+            return out
+        before = links()
+        users = {}
+        for d in vis.values():
+            with open(os.path.join(d, "pkg.json")) as f:
+                users[d] = json.load(f).get("users", [])
+        drop = case["drop"]
+        if drop < 2:
+            shutil.rmtree(os.path.join(projs[drop], "dev"))
+        r = bobproc.script(projs[0], ["clean", "--shared"] + case["clean"])
+        if r.rc != 0:
+            if case["quota"] is None and "--used" in case["clean"] and "--all-unused" in case["clean"] and "NoneType" in r.err:
+                ctx.fail("gc-raised-TypeError:used+all-unused-without-quota", "`bob clean --shared %s`: %s" % (" ".join(case["clean"]), r.err[-400:]), case)
+            else:
+                failed("`bob clean --shared %s`" % " ".join(case["clean"]), r)
+                return
+        after = links()
+        forced = "--used" in case["clean"]
+        if "--dry-run" in case["clean"]:
+            if set(after) != {w for w in before if drop == 2 or not w.startswith(projs[drop] + "/")}:
+                ctx.fail("dry-run-changed-store", "links before %r, after %r" % (sorted(before), sorted(after)), case)
+        elif not forced:
+            for w, pkgdir in before.items():
+                if drop < 2 and w.startswith(projs[drop] + "/"):
+                    continue
+                if w not in after:
+                    if w not in users.get(pkgdir, []):
+                        ctx.fail("unregistered-user-package-collected:lost-install-race",
+                                 "end to end: %s still links to %s, `bob clean --shared %s` (not forced) collected the package; pkg.json "
+                                 "users were %r (the workspace lost the install race: %d 'package already installed' messages)" %
+                                 (w[len(base) + 1:], pkgdir[len(base) + 1:], " ".join(case["clean"]), users.get(pkgdir), lost), case)
+                    else:
+                        ctx.fail("used-package-collected", "end to end: registered user %s of %s lost its package to a non-forced clean" %
+                                 (w, pkgdir), case)
+        e2e_store_check(ctx, case, store, "after bob clean --shared")
+        if case["rebuild"]:
+            i = 1 if drop != 1 else 0
+            r = bobproc.script(projs[i], ["dev"] + names)
+            if r.rc != 0:
+                failed("`bob dev` after the clean in project %d" % i, r)
+                return
+            for n in names:
+                if not os.path.isdir(os.path.join(projs[i], "dev", "dist", n, "1", "workspace")):
+                    ctx.fail("e2e-result-missing", "no result for %s after the rebuild" % n, case)
+            e2e_store_check(ctx, case, store, "after the rebuild")
+            labels.add("e2e-rebuild")
+        ctx.record(jhash(case), lost > 0, sorted(labels), {"e2e": case})
+    finally:
+        vlib.rmtree(base)
+
+e2e_st = st.fixed_dictionaries({
+    "mode": st.just("e2e"), "npkg": st.integers(1, 2), "quota": st.sampled_from([None, None, 1, 100000]),
+    "start": st.sampled_from(["missing", "empty"]), "drop": st.integers(0, 2),
+    "clean": st.sampled_from([["--all-unused"], ["--all-unused"], [], ["--all-unused", "--dry-run"], ["--used"], ["--used", "--all-unused"]]),
+    "rebuild": st.booleans(), "history": st.just([]), "cfg": st.just({}),
+})
+
 # --------------------------------------------------------------------------------------- strategies
 NAMES = ["a", "b", "c", "Dd", "e.txt"]
 SIZES = [0, 1, 7, 300, 700, 1500, 5000]
@@ -1754,7 +1921,8 @@ def case_st(mode, quick):
                               min_size=0, max_size=40) if conc else st.just([])),
     })
 
-LAYERS = [("seq", 0.30, ("history",), 50), ("thr", 0.52, ("history", "schedule"), 30), ("fork", 0.18, ("history", "schedule"), 3)]
+LAYERS = [("seq", 0.30, ("history",), 50), ("thr", 0.44, ("history", "schedule"), 30), ("fork", 0.12, ("history", "schedule"), 3),
+          ("e2e", 0.14, None, 1)]
 
 def shard(ctx):
     import bob.builder, bob.share  # noqa (warm)
@@ -1766,12 +1934,17 @@ def shard(ctx):
         globals()["BATCH"] = batch
         t += total * frac
         ctx.deadline = min(overall, t)
-        run_hypothesis(ctx, case_st(mode, q), lambda c: check(ctx, c), ctx.n(10**6, 10**7), shrink=False, minimize=mini, salt=mode)
+        if mode == "e2e":
+            run_hypothesis(ctx, e2e_st, lambda c: run_e2e(ctx, c), ctx.n(10**6, 10**7), shrink=False, salt=mode)
+        else:
+            run_hypothesis(ctx, case_st(mode, q), lambda c: check(ctx, c), ctx.n(10**6, 10**7), shrink=False, minimize=mini, salt=mode)
         ctx.extra.pop("cases_not_run_time_guard", None)
     ctx.deadline = overall
     drop_scratch()
 
 def replay(ctx, case):
+    if case.get("mode") == "e2e":
+        return run_e2e(ctx, case)
     try:
         run_case(ctx, case, mode="fork" if case.get("mode") == "thr" else None)
     finally:
@@ -1786,17 +1959,22 @@ def _f_loser(sig, case, detail):
     """the loser of an install race links to the winner's package without being added to pkg.json users"""
     if sig != "unregistered-user-package-collected:lost-install-race":
         return False
+    if case.get("mode") == "e2e":
+        return True
     fins = [op for op in case["history"] if op[0] == "fin"]
     return len(fins) >= 2 and (any(op[0] == "gc" and not op[2] for op in case["history"]) or case["cfg"].get("quota") is not None)
 
 def _f_typeerror(sig, case, detail):
     """gc(pruneUsed=True, pruneUnused=True) compares the size with a quota of None as soon as a used package is a candidate"""
+    if case.get("mode") == "e2e":
+        return sig == "gc-raised-TypeError:used+all-unused-without-quota" and case["quota"] is None
     return sig == "gc-raised-TypeError:used+all-unused-without-quota" and case["cfg"].get("quota") is None and \
         any(op[0] == "gc" and op[2] and op[3] for op in case["history"])
 
 def _f_unflushed(sig, case, detail):
     """OpenLocked.__exit__ releases the lock before the rewritten JSON is flushed"""
-    return sig == "metadata-read-between-unlock-and-flush" and case.get("mode") != "seq"
+    return (sig == "metadata-read-between-unlock-and-flush" and case.get("mode") != "seq") or \
+        (sig == "e2e-metadata-race" and case.get("mode") == "e2e")       # real processes: the window cannot be told apart
 
 def _f_creation(sig, case, detail):
     """repo.json is created empty (open 'x') and only then locked and written"""
